@@ -433,7 +433,22 @@ def _r11_5_af(run, af):
     run.ob("R11.5", loc(af, diff[0] if diff else af.node), af.short, "differentiable overrides are called with (*args, **kwargs) unchanged", ok,
            "all arguments forwarded" if ok else "arguments dropped on __array_function__ dispatch")
     nd = [r for r in rets if norm(r.value.func) == "func"]
-    ok = len(nd) == 1 and ".data if isinstance(" in norm(nd[0].value) and "kwargs.items()" in norm(nd[0].value)
+    # every positional and keyword argument is unwrapped (X.data if isinstance(X, Tensor) else X), inline or through locals built by loops;
+    # the raw *args / **kwargs never reach the NumPy implementation
+    unwraps = [x for x in own_nodes(af.node) if isinstance(x, ast.IfExp) and norm(x.test).startswith("isinstance(") and "Tensor" in norm(x.test)
+               and norm(x.body) == norm(x.test.args[0]) + ".data" and norm(x.orelse) == norm(x.test.args[0])] if True else []
+    iters = set()
+    for u in unwraps:
+        p_ = u
+        while p_ is not None and not isinstance(p_, (ast.GeneratorExp, ast.ListComp, ast.DictComp, ast.For, ast.FunctionDef)):
+            p_ = getattr(p_, "_parent", None)
+        if isinstance(p_, ast.For):
+            iters.add(norm(p_.iter))
+        elif isinstance(p_, (ast.GeneratorExp, ast.ListComp, ast.DictComp)):
+            iters.add(norm(p_.generators[0].iter))
+    raw = len(nd) == 1 and (any(isinstance(a, ast.Starred) and norm(a.value) == "args" for a in nd[0].value.args)
+                            or any(k.arg is None and norm(k.value) == "kwargs" for k in nd[0].value.keywords))
+    ok = len(nd) == 1 and {"args", "kwargs.items()"} <= iters and not raw
     run.ob("R11.5", loc(af, nd[0] if nd else af.node), af.short, "non-differentiable functions get plain arrays for args and kwargs", ok,
            "tensors unwrapped to .data in both args and kwargs; result is NumPy's" if ok else "tensors leak into the NumPy implementation")
     tests = {n: norm(s) for n, s in cf.stmt.items() if cf.label[n] == "If"}
